@@ -123,7 +123,7 @@ static DeltaCallback64 make_dcb(int kind, double base) {
 // ------------------------------------------------------------------ objects and their logical models
 enum ObjType { T_NONE = 0, T_C64, T_CD, T_OFF, T_RC, T_RCL, T_CONT };
 
-struct Batch { int kind = 0; Paths64 p; PathsD pd; };  // kind: 0 subject, 1 open subject, 2 clip
+struct Batch { int kind = 0; Paths64 p; PathsD pd; bool raw64 = false; };  // kind: 0 subject, 1 open subject, 2 clip; raw64: integer paths that came through a container
 struct OffGroup { Paths64 paths; int jt = 0, et = 0; bool single = false; };
 
 struct Obj {
@@ -199,7 +199,12 @@ static void ref_execD(const Obj& m, ClipType ct, FillRule fr, int outmode, ClipO
 #ifdef USINGZ
   cl.SetZCallback(make_zcbD(m.zkind));
 #endif
-  for (const Batch& b : m.batches) { if (b.kind == 0) cl.AddSubject(b.pd); else if (b.kind == 1) cl.AddOpenSubject(b.pd); else cl.AddClip(b.pd); }
+  // integer batches that reached the used object through a container reach the fresh one through fresh containers
+  std::vector<std::unique_ptr<ReuseableDataContainer64>> conts;
+  for (const Batch& b : m.batches) {
+    if (b.raw64) { conts.emplace_back(new ReuseableDataContainer64()); conts.back()->AddPaths(b.p, b.kind == 2 ? PathType::Clip : PathType::Subject, b.kind == 1); cl.AddReuseableData(*conts.back()); }
+    else if (b.kind == 0) cl.AddSubject(b.pd); else if (b.kind == 1) cl.AddOpenSubject(b.pd); else cl.AddClip(b.pd);
+  }
   switch (outmode) {
     case 0: r.ret = cl.Execute(ct, fr, r.closed); break;
     case 1: r.ret = cl.Execute(ct, fr, r.closed, r.open); break;
@@ -350,10 +355,11 @@ static void h_c_add(Ctx& c, const Op& op, int idx, OpResult& r) {
 }
 static void h_c_reuse(Ctx& c, const Op& op, int idx, OpResult& r) {
   Obj* o = c.get(op.o); Obj* k = c.get(op.o2);
-  if (!o || !k || o->type != T_C64 || k->type != T_CONT) SKIP(r);
+  if (!o || !k || (o->type != T_C64 && o->type != T_CD) || k->type != T_CONT) SKIP(r);
   for (int s : o->using_conts) if (s == op.o2) SKIP(r);    // one clipper never adds the same container twice
-  { Scope sc(idx); o->c64->AddReuseableData(*k->cont); }
-  for (const Batch& b : k->batches) o->batches.push_back(b); // snapshot of the container's content at this moment
+  if (o->type == T_C64) { Scope sc(idx); o->c64->AddReuseableData(*k->cont); }
+  else { Scope sc(idx); o->cd->AddReuseableData(*k->cont); }  // integer vertices are taken as they are (no scaling)
+  for (const Batch& b : k->batches) { o->batches.push_back(b); o->batches.back().raw64 = true; } // snapshot of the container's content at this moment
   o->using_conts.push_back(op.o2); if (op.o2 < 100) ++k->users; ++o->n_reuse;   // shared (set-up) containers are read-only for tasks, also in the model
 }
 static void h_c_pc(Ctx& c, const Op& op, int idx, OpResult& r) {
